@@ -11,8 +11,6 @@ CLAIMED = {
  "C20": ("constant folding + radix-conversion normal-form recognition + guard dominance + exception-escape analysis",
          "Decides the encoding almost completely: alphabet (57 distinct symbols) and inverse map by constant folding, capacity 57**22 >= 2**128, encoder/decoder recognised as matching radix conversions (digit order, base, padding side), guards dominating the decoder, and the set of exceptions that can escape for str inputs. Given those, bijectivity is the positional-numeral theorem.",
          "Trusts the positional-numeral theorem and the documented ValueError behaviour of uuid.UUID; an encoder/decoder rewritten with a different algorithm ends in ANALYSIS-ERROR (undecided), not in a verdict.", "3/C20"),
-}
-
  "C09": ("string-shape analysis of the emitter + re._parser AST of the stripping pattern, decided by automata inclusion; pairing / guard / sibling-agreement rules; polynomial normal forms",
          "Decides the strippable / self-contained / no_color / bytes=text / invalid=>ValueError clauses for every colour specification: the regular language of everything the package can emit is computed from the source and shown to be included in (and matched exactly by) the stripping pattern; prefix/suffix pairing with the reset, construction-site pairing, guard of every code append by `not no_color`, and the numeric tables (names, cube polynomial, grey ramp, range checks, effect codes) against the SGR/xterm oracle.",
          "Oracle is the ECMA-48 SGR / xterm-256 grammar, not a terminal; TypeError for ill-typed colour containers is not decided; assumes visible text has no ESC (as the property states).", "3/C09"),
